@@ -594,8 +594,10 @@ class Result(Ty):
         return 'if ((%s).is_ok) { printf("ok("); %s printf(")"); } else { printf("err("); %s printf(")"); }' % (e, okd, errd)
 
     def cpp_dump(self, e):
-        okd = 'printf("()");' if isinstance(self.ok, Unit) else "auto okv = std::move(%s).ok(); %s" % (e, self.ok.cpp_dump("(*okv)"))
-        errd = 'printf("()");' if isinstance(self.err, Unit) else "auto errv = std::move(%s).err(); %s" % (e, self.err.cpp_dump("(*errv)"))
+        # a borrowed opaque arm is a reference: ok() / err() hand out optional<reference_wrapper<const Op>>
+        deref = lambda t, v: ("(*%s).get()" % v) if (isinstance(t, OpaqueRef) and not t.optional) else "(*%s)" % v
+        okd = 'printf("()");' if isinstance(self.ok, Unit) else "auto okv = std::move(%s).ok(); %s" % (e, self.ok.cpp_dump(deref(self.ok, "okv")))
+        errd = 'printf("()");' if isinstance(self.err, Unit) else "auto errv = std::move(%s).err(); %s" % (e, self.err.cpp_dump(deref(self.err, "errv")))
         return 'if ((%s).is_ok()) { printf("ok("); %s printf(")"); } else { printf("err("); %s printf(")"); }' % (e, okd, errd)
 
 
